@@ -672,10 +672,20 @@ def gen_c08_case(rng, tier):
         ratio = rng.choice([Fraction(1, 7), Fraction(1, 3), Fraction(1, 2), Fraction(1), Fraction(2), Fraction(3),
                             Fraction(7), Fraction(3, 2), Fraction(2, 3)])
         ip = max(1, int(p * ratio))
-        pattern = rng.choice(["regular", "regular", "jitter", "burst", "silence", "future"])
+        pattern = rng.choice(["regular", "regular", "jitter", "burst", "silence", "future", "late_burst"])
         ts_list = []
         t = start - rng.randrange(0, 2 * ip + 1)
         end = start + duration
+        if pattern == "late_burst":
+            # the source's very first samples are a burst stamped within microseconds before a tick: enough of them
+            # to fill the buffer and to trigger the input-period estimate at that tick
+            g = grid[rng.randint(1, 3)]
+            n = max(init_len, math.ceil(p / 1e6 * age[0] / age[1])) + rng.randint(0, 2)
+            t = g - rng.choice([1, 1, 2, 3, 10, 1000, p // 10])
+            for _ in range(n):
+                ts_list.append(t)
+                t = min(g, t + rng.choice([0, 0, 0, 1]))
+            t = g + rng.choice([1, ip])
         while t < end and len(ts_list) < 400:
             ts_list.append(t)
             if pattern == "jitter":
@@ -898,6 +908,8 @@ async def _actor_scenario(case, loop):
                 tasks.append(asyncio.create_task(consume(arg, out)))
                 src_name = dataclasses.replace(req, namespace=req.namespace + ":Source").get_channel_name()
                 src_chans[arg] = registry.get_or_create(Sample[Quantity], src_name)
+                for _ in range(case["metrics"][arg].get("yields", 0)):   # same instant, a few loop iterations later
+                    await asyncio.sleep(0)
                 log.append(["req", arg, env.clk()])
                 await req_sender.send(req)
             elif kind == "close":
